@@ -215,6 +215,18 @@ ALPHABET = ["{{", "}}", "{{{", "}}}", "|", "=", ":", "#", "{", "}", "[[", "]]", 
             "#tag:", "#iferror:", "#ifexist:", "subst:", "safesubst:", "#rel2abs:", "anchorencode:", "20000000", "-1", "../"]
 
 
+def time_space():
+    """#time: every format character, alone and after each prefix, with typical date arguments."""
+    import string
+
+    items = []
+    for pre in ["", "x", "xr", "xk", "xi", "xj", "xn", "xN", "xg", "\\", '"']:
+        for ch in string.ascii_letters + string.digits + '"\\ -:/':
+            for arg in ["", "|2020-02-29", "|99999-01-01", "|0", "|junk", "|-1 year", "|1e9", "|5000-01-01"]:
+                items.append(("en", "{{#time:" + pre + ch + arg + "}}"))
+    return items
+
+
 def fuzz_space(rng, n, names):
     items = []
     for _ in range(n):
@@ -365,6 +377,7 @@ def run(chk: common.Check):
     items += name_space(rng, aliases if tier == "thorough" else rng.sample(aliases, min(len(aliases), 400)), tier, full=False)
     eitems, ops = expr_space(rng, tier)
     items += eitems
+    items += time_space()
     fz = fuzz_space(rng, 60000 if tier == "thorough" else 6000, names)
     items += fz
     rng.shuffle(items)
